@@ -833,6 +833,13 @@ func (r *reader) read(src []byte) {
 			r.pushChar(src)
 		case intMode:
 			r.pushInteger(src)
+		case bitVectorMode:
+			token := r.makeToken(src)
+			if 0 < len(r.stack) {
+				r.stack = append(r.stack, ReadBitVector(token))
+			} else {
+				r.code = append(r.code, ReadBitVector(token))
+			}
 		}
 		if 0 < len(r.stack) {
 			r.partial("list not terminated")
